@@ -202,8 +202,12 @@ class TapePolicy:
             free[pool][0] -= cpu
             for op in chosen:
                 taken.add(op["id"])
+            # the priority of a container is part of the external decision and need not be the pipeline's own
+            prio = p["priority"] if self.nxt(4) else ["QUERY", "INTERACTIVE", "BATCH_PIPELINE"][self.nxt(3)]
+            if prio != p["priority"]:
+                self.other_priority = getattr(self, "other_priority", 0) + 1
             asg.append({"operator_ids": [op["id"] for op in chosen], "cpu": cpu, "ram_gb": ram, "pool_id": pool,
-                        "priority": p["priority"], "is_resume": bool(self.nxt(2)), "force_run": False})
+                        "priority": prio, "is_resume": bool(self.nxt(2)), "force_run": False})
         return {"suspensions": sus, "assignments": asg}
 
 
@@ -517,6 +521,8 @@ def run_case(spec):
             out.label("completion_reported")
         if ctx["init"] != 1:
             P("C19:init-calls", f"/init called {ctx['init']} times")
+    if getattr(policy, "other_priority", 0):
+        out.label("container_priority_differs_from_pipeline")
     nsus = sum(len(tr.sus) for tr in recA.ticks)
     if nsus:
         out.label("had_suspension")
